@@ -1,6 +1,7 @@
 """C17 — initialised, reproducible output.
-Proof: AdfProps/C17.lean (the image is a function of calls, arguments and clock: the model is a pure function, and
-every block it writes is the encoding of a fully initialised record — `run` has no other input).
+Proof: AdfProps/C17.lean (every stored sector has exactly 512 defined bytes in every reachable state of every program;
+a write stores the zero-padded buffer; the outcome of a program is independent of the access log — the model's output is
+a function of calls, arguments, clock and prior disk only).
 Tie (the heart of this property): every profile runs on TWO builds of the real library that differ in what
 uninitialised memory holds (stack: -ftrivial-auto-var-init=pattern vs =zero; heap: malloc filled with 0xA5 vs 0x5A);
 results and the hash of every block handed to the device must be identical between the two builds AND equal to the
